@@ -17,7 +17,7 @@
     compares every result; the property oracle ([Spec]) is evaluated on a
     trace rebuilt from the implementation's results alone. *)
 From Coq Require Import List ZArith NArith Bool String.
-From C33 Require Import Lib.Harness C38.Model C38.Spec C38.Witness.
+From C33 Require Import Lib.Harness C38.Model C38.Spec.
 Import ListNotations.
 Open Scope Z_scope.
 
@@ -40,7 +40,8 @@ Inductive case :=
     (* the hammer (a test): ProcWalletSetPasswd with a wrong old password in a loop
        on an unlocked wallet, concurrently [trials] times: ProcWalletLock returned
        nil, then CheckWalletStatus (under the mutex, after the SetPasswd in flight);
-       [hits] = how often it still said "unlocked" although nobody had unlocked *)
+       [hits] = how often it still said "unlocked" although nobody had unlocked
+       (must be 0: C38_secret_implies_unlock_before holds for every schedule) *)
 
 (** password table shared with the harness (cases say [p 3]) *)
 Definition pwtab : list pw :=
@@ -67,9 +68,9 @@ Definition ores_eqb (m : option result) (r : result) : bool :=
 Definition db_ops (s : shared) (q : req) (c : pc) : list gkind :=
   let hash := if is_empty (mem_pw s) && has_seed s then [GHash] else [] in
   match c with
-  | PS_seed | PS_gs_seed _ | PU_seed | PX_seed | PL_seed | PO_seed _ => [GSeed]
-  | PS_verify _ | PU_check => hash
-  | PS_write _ =>
+  | PS_seed | PS_hasseed | PU_seed | PX_seed | PL_seed | PO_seed _ => [GSeed]
+  | PS_verify | PU_check => hash
+  | PS_write =>
       match q with
       | QSetPasswd old _ =>
           if is_empty old then []
@@ -120,18 +121,17 @@ Fixpoint flags_during (fuel : nat) (i : nat) (g : gstate) : gstate * list bool :
   end.
 
 (** ** the implementation-side trace (built from results only) *)
-Definition is_setpw (q : req) : bool := match q with QSetPasswd _ _ => true | _ => false end.
 
-(** events of a completed request; [tag] = it ran while a SetPasswd was in flight *)
-Definition impl_events (tag : bool) (t : Z) (q : req) (r : result) : list event :=
+(** events of a completed request *)
+Definition impl_events (t : Z) (q : req) (r : result) : list event :=
   match q, r with
   | QUnlock _ T false, ROk => [EUnlock 0 T t]
   | QLock, ROk => [ELock 0]
-  | QIsLocked, RBool b => [EObs 0 (negb b) false tag t]
-  | QStatus, RStatus b _ => [EObs 0 (negb b) false tag t]
+  | QIsLocked, RBool b => [EObs 0 (negb b) false t]
+  | QStatus, RStatus b _ => [EObs 0 (negb b) false t]
   | QSecret _, RErr e =>
-      if N.eqb e eLocked then [EObs 0 false true tag t] else [EObs 0 true true tag t]
-  | QSecret _, _ => [EObs 0 true true tag t]
+      if N.eqb e eLocked then [EObs 0 false true t] else [EObs 0 true true t]
+  | QSecret _, _ => [EObs 0 true true t]
   | _, _ => []
   end.
 
@@ -140,15 +140,14 @@ Definition flag_test_first (q : req) : bool := match q with QSecret _ => true | 
 Fixpoint impl_trace (t : Z) (acc : list event) (its : list item) : list event :=
   match its with
   | [] => acc
-  | IOp q r :: tl => impl_trace t (impl_events false t q r ++ acc) tl
+  | IOp q r :: tl => impl_trace t (impl_events t q r ++ acc) tl
   | IPass d :: tl => impl_trace (t + d) acc tl
   | IRestart :: tl => impl_trace t (ERestart :: acc) tl
   | IGate v _ _ reached inner blocked vr :: tl =>
-      let tag := is_setpw v && reached in
-      let ev_v := impl_events false t v vr in
-      let ev_in := fold_left (fun a qr => impl_events tag t (fst qr) (snd qr) ++ a) inner [] in
+      let ev_v := impl_events t v vr in
+      let ev_in := fold_left (fun a qr => impl_events t (fst qr) (snd qr) ++ a) inner [] in
       let ev_b := match blocked with
-                  | Some (q, early, r) => impl_events (tag && early) t q r
+                  | Some (q, early, r) => impl_events t q r
                   | None => []
                   end in
       (* newest first.  Not held: the victim had returned before the inner requests.
@@ -159,10 +158,9 @@ Fixpoint impl_trace (t : Z) (acc : list event) (its : list item) : list event :=
       (* a waiting request that returned early ran inside the hold *)
       impl_trace t (ev_b ++ mid ++ acc) tl
   | ISpin q r sawU sawL :: tl =>
-      let tag := is_setpw q in
-      let before := if sawU then [EObs 0 true false tag t] else [] in
+      let before := if sawU then [EObs 0 true false t] else [] in
       (* an unlocked read during the call is justified by an unlock that is this very call *)
-      let evq := impl_events false t q r in
+      let evq := impl_events t q r in
       let obs_first := match q, r with QUnlock _ _ false, ROk => false | _, _ => true end in
       impl_trace t (if obs_first then evq ++ before ++ acc else before ++ evq ++ acc) tl
   end.
@@ -215,27 +213,14 @@ Fixpoint run_items (g : gstate) (its : list item) : bool :=
   | it :: tl => let '(g', a) := run_item g it in a && run_items g' tl
   end.
 
-(** known finding 1: the oldest unjustified observation is a lock-free read
-    made while a ProcWalletSetPasswd call was in flight *)
-Definition kf_code (tr : list event) : N :=
-  match first_bad_obs tr with
-  | Some (false, true) => 1%N
-  | _ => 0%N
-  end.
-
 Definition check_case (c : case) : verdict :=
   match c with
   | CHist its =>
       let tr := impl_trace 0 [] its in
-      let s := obs_ok_timed tr && obs_ok true tr in
-      (run_items init_g its, s, if s then 0%N else kf_code tr)
+      mk_verdict (run_items init_g its) (obs_ok_timed tr && obs_ok true tr)
   | CDict tab => mk_verdict (list_eqb bytes_eqb tab pwtab) true
   | CLostLock _ hits =>
-      (* the model can show exactly this: lock returned ok, the concurrent password
-         change failed, and the status test under the mutex passes *)
-      let g := exec (sched_lost_lock_with (QSecret KStatus) 5) init_g in
-      let model_can :=
-        ores_eqb (result_of g 2) (RErr eVerifyOld) && ores_eqb (result_of g 3) ROk
-        && ores_eqb (result_of g 4) ROk && negb (obs_ok false (trace g)) in
-      if N.eqb hits 0 then ok_verdict else (model_can, false, 2%N)
+      (* a status "unlocked" under the mutex after a lock that returned nil, with no
+         unlock since: no schedule of the model shows it, and the oracle forbids it *)
+      if N.eqb hits 0 then ok_verdict else mk_verdict false false
   end.
